@@ -1834,6 +1834,11 @@ INVALID_MUTATIONS = [
     ("enum<-int", lambda p: p.__setitem__("en", 0)),
     ("datetime<-garbage", lambda p: p.__setitem__("dt", "not a time")), ("datetime<-bool", lambda p: p.__setitem__("dt", True)),
     ("date<-garbage", lambda p: p.__setitem__("d", "2025-13-45")),
+    # strings that START with a valid calendar date but are not a time the documentation accepts
+    ("datetime<-bad-clock", lambda p: p.__setitem__("dt", "2025-09-07T25:61:00Z")),
+    ("datetime<-no-offset", lambda p: p.__setitem__("dt", "2025-09-07T12:34:56")),
+    ("datetime<-date-then-text", lambda p: p.__setitem__("dt", "2025-09-08 is the day")),
+    ("date<-date-then-text", lambda p: p.__setitem__("d", "2025-09-08T")),
     ("optional<-wrongtype", lambda p: p.__setitem__("o", 5)),
 ]
 
